@@ -15,6 +15,7 @@ Action formats (JSON-able lists):
   ["queue", topic, payload]           queue a command without delivering anything
   ["settle"]                          deliver everything queued
   ["lag", actor, seconds]             `actor` is slow (inbox not served) for `seconds` while the others run
+  ["lagcmd", actor, seconds, topic, payload]   the command arrives while `actor` is slow
 """
 from __future__ import annotations
 
@@ -66,6 +67,9 @@ class Runner:
                 for m in self.monitors:
                     if m.pid == "C14":
                         m.settled(self)
+            return
+        # settled = nothing is waiting in any inbox (a lagging actor with queued messages is not settled)
+        if any(not a.actor_inbox.empty() for a in self.world.actors if a.actor_ref.is_alive() and a.sim_name != "Mqtt"):
             return
         for m in self.monitors:
             m.settled(self)
@@ -128,6 +132,15 @@ class Runner:
             # actor `a[1]` is slow: its inbox is not served for a[2] seconds (<= latency bound) while the others run
             act = w.actor(a[1])
             w.frozen.add(act)
+            self.run_prompt(a[2])
+            w.frozen.discard(act)
+            w.settle(order=self.order)
+            self.at_settled()
+        elif op == "lagcmd":
+            # the command arrives while actor `a[1]` is slow (does not serve its inbox for a[2] seconds)
+            act = w.actor(a[1])
+            w.frozen.add(act)
+            s.mqtt_in(a[3], a[4])
             self.run_prompt(a[2])
             w.frozen.discard(act)
             w.settle(order=self.order)
@@ -253,6 +266,8 @@ def gen_action(rng: random.Random, profile: str = "general"):
             topic = rng.choice(list(SETTINGS))
             payload = rng.choice(SETTINGS[topic])
         return ["race", actor, topic, payload, rng.choice([0.0, 0.3, 0.9])]
+    if x < 0.965:
+        return ["lagcmd", rng.choice(["Disinfection", "Heating", "Swim", "Tank"]), rng.choice([1.5, 3.0]), "/settings/mode", rng.choice(MODES)]
     if x < 0.97:
         return ["lag", rng.choice(["Filtration", "Heating", "Tank", "Swim", "Disinfection"]), rng.choice([0.5, 1.0])]
     n = rng.randint(2, 4)
